@@ -488,7 +488,7 @@ PROPS['C15'].update({
 BITSETS_CORE = ['bitsets.Meta.__init__', 'bitsets.MemberBits.frommembers', 'bitsets.MemberBits.frombools', 'bitsets.MemberBits.bools',
                 'bitsets.MemberBits.members', 'bitsets.Series.frombools', 'bitsets.Series.bools', 'bitsets.integers.indexes']
 BITSETS_ATOMS = ['bitsets.Meta.__init__', 'bitsets.MemberBits.atoms', 'bitsets.MemberBits.inatoms', 'bitsets.Meta.atomic', 'bitsets.Meta.inatomic']
-BITSETS_KEYS = ['bitsets.MemberBits.shortlex', 'bitsets.MemberBits.longlex', 'bitsets.integers.reinverted', 'lemma.bitsets.key_injective']
+BITSETS_KEYS = ['bitsets.MemberBits.shortlex', 'bitsets.MemberBits.longlex', 'bitsets.integers.reinverted', 'lemma.bitsets.key_injective', 'lemma.bitsets.key_order']
 BITSETS_REDUCE = ['bitsets.Meta.reduce_and', 'bitsets.Meta.reduce_or']
 _BS_NOTE = (' The bitsets functions used here are themselves under contract (units bitsets.*, verified from the installed package source); what remains assumed of bitsets: '
             "bin(x).count('1') = member count, indexes_optimized = indexes (both via bin()), powerset/combos.shortlex, the class registry.")
@@ -505,4 +505,9 @@ PROPS['C18']['proved_part'] += ('; intent.powerset() itself: MemberBits.powerset
 PROPS['C18']['bounded_part'] = 'the order among equal-size subsets (ties by property position) of combos.shortlex; replay'
 PROPS['C18']['level_note'] = ('powerset() is no longer assumed: every subset once and shortest first are proved from the bitsets source; the tie order among equal-size subsets '
                               "and bin()-based helpers (indexes_optimized, count) remain assumed bitsets contracts, run-time checked on the bounded side.")
+PROPS['C06']['bounded_part'] = "bin(x).count('1') = the number of members (string level); replay with labels whose alphabetical order differs from their position"
+PROPS['C06']['proved_part'] += ('; the sort keys themselves: shortlex()/longlex() = (+/- member count, reinverted bits), integers.reinverted verified from the bitsets source, and '
+                                'lemma.bitsets.key_order: among sets of equal size the key orders by member POSITION (the set owning the lowest differing position first), key injective')
+PROPS['C06']['level_note'] = ("The key contract of bitsets is now proved from the package source except the member count bin(x).count('1') (assumed = popcount, strictly monotone "
+                              'under strict inclusion); B14 (order of naturals by the highest differing bit) is proved in Lean.' + _BS_NOTE)
 NOT_APPLICABLE = {}
